@@ -30,7 +30,8 @@ def strategy(draw):
     return dict(
         layout=dict(n=n, seed=draw(gen.seeds32), extent=draw(gen.log_floats(1.0, 1000.0)), offset_exp=draw(gen.floats(0, 4)),
                     offset_dir=draw(gen.floats(0, 6.283)), nb=draw(st.integers(3, 9)), bseed=draw(gen.seeds32),
-                    bscale=draw(st.one_of(gen.floats(0.9, 1.8), gen.floats(0.9, 1.8), gen.log_floats(1.0, 1000.0))), pattern=draw(gen.choice(["random", "grid", "cluster", "line-ish"])),
+                    bscale=draw(st.one_of(gen.floats(0.9, 1.8), gen.floats(0.9, 1.8), gen.log_floats(1.0, 1000.0))), pattern=draw(gen.choice(["random", "grid", "cluster", "line-ish", "line-tight"])),
+                    dev=draw(gen.log_floats(1e-5, 1e-2)),
                     perm_seed=draw(gen.seeds32), shift=[draw(gen.floats(-1e4, 1e4)), draw(gen.floats(-1e4, 1e4))], k=draw(st.sampled_from([-3, -1, 1, 4]))),
         mc=dict(m=draw(st.integers(2, 8)), seed=draw(gen.seeds32), dist_gen=draw(gen.choice(["lognormal", "normal"])),
                 dist_sp=draw(gen.choice(["normal", "lognormal", "lognormal", "normal"])), n_real=draw(st.one_of(st.integers(1, 30), st.integers(1, 400))),
@@ -50,6 +51,12 @@ def expand_layout(L):
     elif L["pattern"] == "line-ish":
         x = np.linspace(-1, 1, n)
         pts = np.column_stack([x, 0.3 * x + g.uniform(-0.15, 0.15, size=n)])
+    elif L["pattern"] == "line-tight":
+        # a linear array: nearly, not exactly, collinear sensors (lateral scatter 1e-5 .. 1e-2 of the extent)
+        x = np.linspace(-1, 1, n) + g.uniform(-0.3, 0.3, size=n) / n
+        th = g.uniform(0, math.pi)
+        lat = L.get("dev", 1e-3) * g.uniform(-1, 1, size=n)
+        pts = np.column_stack([x * math.cos(th) - lat * math.sin(th), x * math.sin(th) + lat * math.cos(th)])
     else:
         pts = g.uniform(-1, 1, size=(n, 2))
     pts = pts * E
@@ -208,7 +215,8 @@ def check_layout(hv, L, labels):
     wt, it = sut(hv.HvsrSpatial(coords + sh).spatial_weights, boundary + sh, what="spatial_weights(translated)")
     require(list(it) == list(idx_ref) and np.all(np.abs(np.asarray(wt) - w) <= 1e-6), f"translating all coordinates by {sh.tolist()} changes the weights (max diff {np.max(np.abs(np.asarray(wt) - w)):.3g})")
     s = 2.0 ** L["k"]
-    if size * s < 5e4:
+    # the scaled copy must itself lie in the regime of the fixed 1e6 far-point radius (see the guard above)
+    if size * s < 5e4 and 1e6 * math.sin(amin / 2.0) >= 5.0 * rb * s:
         ws_, is_ = sut(hv.HvsrSpatial(coords * s).spatial_weights, boundary * s, what="spatial_weights(scaled)")
         require(list(is_) == list(idx_ref) and np.all(np.abs(np.asarray(ws_) - w) <= 1e-6), f"scaling all coordinates by 2^{L['k']} changes the weights")
     culled = len(idx_ref) < len(coords)
@@ -216,6 +224,8 @@ def check_layout(hv, L, labels):
         labels.append("culled-sensor")
     if cut:
         labels.append("cell-cut-by-boundary")
+    if L["pattern"] == "line-tight":
+        labels.append("line-tight")
     labels.append("boundary/array=%s" % ("<3" if size / (2 * E) < 3 else ("3-50" if size / (2 * E) < 50 else ">50")))
     return culled and cut
 
